@@ -134,6 +134,7 @@ func init() {
 			{ID: "C09.R2", Title: "in nullBytes/trueBytes/falseBytes each `s.char() != K` whose body refills is a loop condition or is followed by a second comparison with K before the cursor advances", Covers: "a literal split across chunks is still checked letter by letter", Min: 10, Run: c09r2},
 			{ID: "C09.R3", Title: "the error result of r.Read in (*Stream).read flows to a Stream field or a return value", Covers: "a reader error other than EOF is reported, never turned into a decoded value", Min: 1, Run: c09r3},
 			{ID: "C09.R5", Title: "the operand of utf8.FullRune on the stream window ends at s.length", Covers: "a multi-byte character split across chunks decodes as in buffer mode", Min: 1, Run: c09r5},
+			{ID: "C09.R9", Title: "decodeKeyCharByUnicodeRune and its stream sibling move the cursor by the same amounts on their success returns (+3 after one escape, +9 after a surrogate pair) and read their hex digits from 4-byte slices at the same offsets", Covers: "an escaped object key is consumed alike in both modes", Min: 3, Run: c09r9},
 			{ID: "C06.R5", Title: "look-ahead reads are length-guarded (shared with C06; in stream mode a single refill is not a guard, a loop until enough bytes is)", Covers: "escapes split over several reads decode as in buffer mode", Min: 25, Run: c06r5},
 			{ID: "C09.R6", Title: "wherever the stream window is spliced in place (s.buf = append(append(s.buf[:A], X...), s.buf[B:]...)) the update of s.length in the same statement list equals A + len(X) - B as a linear form", Covers: "after an escape or invalid byte was rewritten, the scanners still know how much data the window holds", Min: 3, Run: c09r6},
 			{ID: "C09.R7", Title: "must-analysis per stream scanner with a local cursor: at every (*Stream).read call the local cursor has been written to s.cursor since it last moved", Covers: "a token cut by a chunk boundary resumes where it stopped", Min: 15, Run: c09r7},
@@ -247,6 +248,7 @@ func init() {
 			{ID: "C15.R3", Title: "decodeKeyByBitmapUint8 ≡ …Uint16 and …Uint8Stream ≡ …Uint16Stream under {uint16→uint8, TrailingZeros16→8, keyBitmapUint16→8, MaxUint16→8}; buffer and stream versions dispatch on the same key bytes", Covers: "structs with ≤8 and ≤16 fields, in both modes, match keys alike", Min: 4, Run: c15r3},
 			{ID: "C15.R4", Title: "encoder and decoder never read reflect.StructField.Tag themselves; both call runtime.StructTagFromField / IsIgnoredStructField", Covers: "names, omitempty/string options and '-' mean the same when encoding and decoding", Min: 2, Run: c15r4},
 			{ID: "C15.R6", Title: "in the four bitmap key decoders every path from one bitmap row read to the next passes the `curBit == 0` test whose true branch exits", Covers: "a key longer than every field name (also through multi-byte \\u escapes) ends the match instead of indexing past the bitmap", Min: 8, Run: c15r6},
+			{ID: "C09.R9", Title: "escaped surrogates in keys are consumed alike in both modes (shared with C09)", Covers: "an escaped key selects the field its decoded text names", Min: 3, Run: c09r9},
 			{ID: "C15.R7", Title: "in tryOptimize, a lower-cased name that is already registered refuses the optimisation unless the registered and the new *structFieldSet are pointer-identical", Covers: "exact match first, then case-insensitive: fields whose names differ only in case stay distinguishable", Min: 1, Run: c15r7},
 			{ID: "C15.R5", Title: "every bitmap column index passes through largeToSmallTable; tryOptimize lower-cases keys and refuses names whose Unicode lower-casing differs from ASCII folding; the table folds exactly A-Z", Covers: "case-insensitive matching agrees between the bitmap builder and the scanners", Min: 10, Run: c15r5},
 		},
